@@ -28,9 +28,10 @@ ASSIGNOPS = ['=', '+=', '-=', '*=', '/=', '%=', '..=']
 NAME_CLASSES = {'NAME': None, 'NAME_e': b'e1', 'NAME_x': b'xf', 'NAME_b': b'b1', 'NAME_kw': b'do1', 'NAME_kw2': b'endx',
                 'NAME_hi': b'\x8ba', 'NAME_builtin': b'print', 'NAME_us': b'_x'}
 NUMBER_CLASSES = {'INT': b'1', 'NUM_dot': b'1.', 'NUM_ldot': b'.5', 'NUM_frac': b'1.5', 'NUM_exp': b'1e5',
-                  'NUM_expm': b'2e-3', 'HEX': b'0x1f', 'HEXFRAC': b'0x1.8', 'BIN': b'0b1', 'BINFRAC': b'0b1.1'}
+                  'NUM_expm': b'2e-3', 'NUM_expp': b'3e+2', 'HEX': b'0x1f', 'HEXU': b'0X2E', 'HEXFRAC': b'0x1.8',
+                  'HEXLDOT': b'0x.8', 'BIN': b'0b1', 'BINFRAC': b'0b1.1'}
 STRING_CLASSES = {'STR_dq': b'"s"', 'STR_sq': b"'s'", 'STR_long0': b'[[s]]', 'STR_long1': b'[=[s]=]',
-                  'STR_esc': b'"\\n\\65\\\\"', 'STR_empty': b'""'}
+                  'STR_esc': b'"\\n\\65\\\\"', 'STR_empty': b'""', 'STR_escx': b'"\\x41\\z  b\\0001"'}
 NAME_POOL = [b'a', b'b', b'c']
 
 # ---------------------------------------------------------------- the grammar
